@@ -2,7 +2,7 @@
    bridge from the computed verdict [check_stub] to a statement about every concrete run. *)
 From Coq Require Import ZArith List Bool String Lia.
 Require Import ZifyBool.
-Require Import UV.C01.Isa UV.C01.Machine.
+Require Import UV.C01.Isa UV.Gen.Stubs UV.C01.ArchCtx UV.C01.ArchCtxProofs UV.C01.Machine.
 Import ListNotations.
 Local Open Scope Z_scope.
 
@@ -20,6 +20,7 @@ Proof.
            | H : (_ =? _) = true |- _ => apply Z.eqb_eq in H; subst
            | H : Nat.eqb _ _ = true |- _ => apply Nat.eqb_eq in H; subst
            | H : String.eqb _ _ = true |- _ => apply String.eqb_eq in H; subst
+           | H : Bool.eqb _ _ = true |- _ => apply Bool.eqb_prop in H; subst
            end; reflexivity.
 Qed.
 
@@ -142,7 +143,7 @@ Section Sound.
     intros HR Hok Hoka. pose proof HR as [].
     unfold a_call in *. unfold c_call.
     pose proof (R_reg0 RSP) as Hsp.
-    destruct (ar a RSP) as [ | p | | | | | | | ] eqn:Ersp; try (cbn in Hok; congruence).
+    destruct (ar a RSP) as [ | p | | | | | | | | ] eqn:Ersp; try (cbn in Hok; congruence).
     cbn in Hsp.
     destruct ((p_a0 P + p) mod 16 =? 0) eqn:Hal; [|cbn in Hok; congruence].
     assert (Hal' : cr c RSP mod 16 =? 0 = true).
@@ -160,14 +161,21 @@ Section Sound.
                            (if ((rsp0 + o <? cr c RSP) || wr (rsp0 + o))%bool then w_mem W (cn c) (rsp0 + o)
                             else cm c (rsp0 + o)) = mem0 (rsp0 + o)
                  end) ->
-      R {| ar := fun r => if callee_saved r then ar a r else VHav n r; ax := ax a; am := m;
+      R {| ar := fun r => if callee_saved r then ar a r else VHav n r; ax := a_call_xmm f n (ax a); am := m;
            ahi := Some (match ahi a with None => p | Some h => Z.max h p end);
            azf := None; an := S n; askip := askip a; aend := aend a; aok := aok a |}
-        {| cr := fun r => if callee_saved r then cr c r else w_regs W (cn c) r; cx := cx c;
+        {| cr := fun r => if callee_saved r then cr c r else w_regs W (cn c) r; cx := c_call_xmm W f (cn c) (cx c);
            cm := fun x => if ((x <? cr c RSP) || wr x)%bool then w_mem W (cn c) x else cm c x;
            czf := w_zf W (cn c); cn := S (cn c); cskip := cskip c; cend := cend c; cfault := cfault c |}).
     { intros m wr Hm. constructor; cbn; auto; try discriminate; try (now rewrite R_n0).
-      intro r. destruct (callee_saved r); auto. now rewrite R_n0. }
+      - intro r. destruct (callee_saved r); auto. now rewrite R_n0.
+      - intro x. unfold c_call_xmm, a_call_xmm. rewrite R_n0. fold n.
+        destruct (xmm_leaf f); [apply R_xmm0|].
+        destruct (xmm_wrapped f).
+        + destruct (Nat.ltb_spec x 8) as [Hx|Hx].
+          * rewrite arch_roundtrip_lower by exact Hx. apply R_xmm0.
+          * rewrite arch_roundtrip_upper by exact Hx. cbn. apply surjective_pairing.
+        + cbn. apply surjective_pairing. }
     (* memory facts for the filtered list *)
     assert (M1 : forall o, lookup m1 o = None -> below (Some (match ahi a with None => p | Some h => Z.max h p end)) o = false ->
                    (forall e, p_ext P = Some e -> rsp0 + o <> den e) -> cm c (rsp0 + o) = mem0 (rsp0 + o)).
@@ -183,7 +191,7 @@ Section Sound.
       specialize (R_mem0 o). now rewrite Hl in R_mem0. }
     destruct (may_write f) eqn:Hmw.
     - pose proof (R_reg0 RDI) as Hdi.
-      destruct (ar a RDI) as [ | o | r d | | | | | | ] eqn:Erdi; try (cbn in Hok; congruence).
+      destruct (ar a RDI) as [ | o | r d | | | | | | | ] eqn:Erdi; try (cbn in Hok; congruence).
       + (* slot pointer relative to rsp0 *)
         cbn in Hdi.
         destruct (p <=? o) eqn:Hpo.
